@@ -1005,6 +1005,14 @@ def install(m):
             if isinstance(v, VecObj):
                 return Adt('Cow', 'Owned', [v])
             return Adt('Cow', 'Borrowed', [v])
+        # integer widening (u8 -> u32 ...) and bool -> integer
+        if tb in BITS:
+            if isinstance(v, (bool, z3.BoolRef)):
+                if isinstance(v, bool):
+                    return Int(tb, 1 if v else 0)
+                return Int(tb, z3.If(v, z3.BitVecVal(1, BITS[tb]), z3.BitVecVal(0, BITS[tb])))
+            if isinstance(v, Int):
+                return m.cast('IntToInt', v, tb)
         # same type?
         rtv = m.runtime_type(v)
         if rtv == tb:
@@ -2228,6 +2236,33 @@ def install(m):
             return a[1]
         return x
 
+    @reg('OnceLock::new', 'OnceCell::new')
+    def _once_new(m, a, c, rt):
+        return OnceObj()
+    L['default:OnceLock'] = lambda m: OnceObj()
+    L['default:OnceCell'] = lambda m: OnceObj()
+    L['default:PhantomData'] = lambda m: Opaque('PhantomData', '')
+
+    @reg('OnceLock::get', 'OnceCell::get')
+    def _once_get(m, a, c, rt):
+        o = deref(m, a[0])
+        return some(Ptr(Cell(o.value), ())) if o.filled else none()
+
+    @reg('OnceLock::set', 'OnceCell::set')
+    def _once_set(m, a, c, rt):
+        o = deref(m, a[0])
+        if o.filled:
+            return err(a[1])
+        o.value, o.filled = a[1], True
+        return ok(unit())
+
+    @reg('OnceLock::get_or_init', 'OnceCell::get_or_init')
+    def _once_get_or_init(m, a, c, rt):
+        o = deref(m, a[0])
+        if not o.filled:
+            o.value, o.filled = m.call_value(a[1], []), True
+        return Ptr(Cell(o.value), ())
+
     @reg('Formatter::alternate', 'alternate')
     def _alternate(m, a, c, rt):
         return bool(deref(m, a[0]).alternate)
@@ -3045,6 +3080,17 @@ def install3(m):
 
 # =============================================================================
 # thread locals, RefCell, windows
+
+class OnceObj:
+    """std::sync::OnceLock / std::cell::OnceCell: empty or holding one value (interior mutability)."""
+    rust_type = 'OnceLock'
+
+    def __init__(self, value=None, filled=False):
+        self.value, self.filled = value, filled
+
+    def clone(self, m):
+        return OnceObj(self.value, self.filled)
+
 
 class RefCellObj:
     rust_type = 'RefCell'
